@@ -355,6 +355,9 @@ static struct acc *acc_get(const char *name)
 /* ----------------------------------------------------------- run state */
 
 static struct plan P;
+static uint64_t rnd_calls;   /* bytes handed out by the simulated getrandom() in this run */
+static uint64_t clk_calls;   /* readings of the simulated clock in this run: it advances 1 ms per reading */
+#define SIM_EPOCH 1700000000L
 static struct buf logb, out;
 static uint64_t log_hash;
 static long seq, steps;
@@ -591,6 +594,7 @@ static const int traced[] = {
   SYS_mmap, SYS_brk, SYS_mremap, SYS_dup, SYS_dup2, SYS_dup3, SYS_fcntl,
   SYS_fork, SYS_vfork, SYS_clone, SYS_socket, SYS_chdir, SYS_fchdir,
   SYS_sendfile, SYS_copy_file_range, SYS_fallocate, SYS_pwritev, SYS_preadv,
+  SYS_getrandom, SYS_clock_gettime, SYS_gettimeofday, SYS_time,
 #ifdef SYS_clone3
   SYS_clone3,
 #endif
@@ -763,6 +767,56 @@ static void handle_entry(pid_t pid, struct sysctx *c)
 	      do_skip(pid, c, -f->err);
 	      break;
 	    }
+	break;
+      }
+    case SYS_getrandom:
+      {
+	/* the only source of randomness the programs can reach (malloc's tcache key, mkstemp names): the simulated
+	   kernel answers it from a counter, so that a run is a function of its plan alone */
+	unsigned char buf[256];
+	long want = (long)r->rsi;
+	if (want < 0) want = 0;
+	if (want > (long)sizeof buf) want = (long)sizeof buf;
+	for (long i = 0; i < want; ++i)
+	  {
+	    uint64_t z = (rnd_calls++ + 1) * 0x9E3779B97F4A7C15ULL;
+	    z = (z ^ (z >> 30)) * 0xBF58476D1CE4E5B9ULL; z = (z ^ (z >> 27)) * 0x94D049BB133111EBULL; z ^= z >> 31;
+	    buf[i] = (unsigned char)z;
+	  }
+	if (want && write_mem(pid, r->rdi, buf, (size_t)want)) break;
+	do_skip(pid, c, want);
+	c->injected = 0;
+	--steps;   /* a query of the environment, not an I/O step */
+	break;
+      }
+    case SYS_clock_gettime: case SYS_gettimeofday: case SYS_time:
+      {
+	/* the vDSO is hidden from the program (scrub_vdso), so every clock reading arrives here: simulated time
+	   starts at SIM_EPOCH (0 for the monotonic clocks) and advances one millisecond per reading */
+	uint64_t n = ++clk_calls;
+	long sec = (long)(n / 1000), nsec = (long)(n % 1000) * 1000000L;
+	long ret = 0;
+	if (nr == SYS_clock_gettime)
+	  {
+	    int clk = (int)r->rdi;
+	    struct timespec ts = { sec + ((clk == CLOCK_REALTIME || clk == CLOCK_REALTIME_COARSE || clk == CLOCK_TAI) ? SIM_EPOCH : 0), nsec };
+	    if (r->rsi && write_mem(pid, r->rsi, &ts, sizeof ts)) break;
+	  }
+	else if (nr == SYS_gettimeofday)
+	  {
+	    struct timeval tv = { sec + SIM_EPOCH, nsec / 1000 };
+	    if (r->rdi && write_mem(pid, r->rdi, &tv, sizeof tv)) break;
+	    if (r->rsi) { struct timezone tz = { 0, 0 }; write_mem(pid, r->rsi, &tz, sizeof tz); }
+	  }
+	else
+	  {
+	    long t = sec + SIM_EPOCH;
+	    if (r->rdi && write_mem(pid, r->rdi, &t, sizeof t)) break;
+	    ret = t;
+	  }
+	do_skip(pid, c, ret);
+	c->injected = 0;
+	--steps;
 	break;
       }
     case SYS_read: case SYS_pread64: case SYS_readv: case SYS_preadv:
@@ -1149,13 +1203,42 @@ static void handle_exit(pid_t pid, struct sysctx *c)
   if (dirty) ptrace(PTRACE_SETREGS, pid, 0, &r);
 }
 
+/* Hide the vDSO from the freshly exec'ed program: its auxiliary vector entry AT_SYSINFO_EHDR becomes AT_IGNORE, so
+   the C library reads clocks with real system calls, which the filter traps and the simulated clock answers. */
+static void scrub_vdso(pid_t pid)
+{
+  struct user_regs_struct r;
+  if (ptrace(PTRACE_GETREGS, pid, 0, &r)) return;
+  unsigned long p = r.rsp;
+  uint64_t v;
+  if (read_mem(pid, p, &v, 8) || v > 100000) return;
+  p += 8 + 8 * v + 8;                       /* argc, argv[], NULL */
+  for (int i = 0; i < 100000; ++i)          /* envp[], NULL */
+    {
+      if (read_mem(pid, p, &v, 8)) return;
+      p += 8;
+      if (!v) break;
+    }
+  for (int i = 0; i < 256; ++i)
+    {
+      uint64_t kv[2];
+      if (read_mem(pid, p, kv, sizeof kv) || kv[0] == 0 /* AT_NULL */) return;
+      if (kv[0] == 33 /* AT_SYSINFO_EHDR */)
+	{
+	  kv[0] = 1; /* AT_IGNORE */
+	  write_mem(pid, p, kv, sizeof kv);
+	}
+      p += 16;
+    }
+}
+
 /* ----------------------------------------------------------- run a plan */
 
 static void run_plan(void)
 {
   memset(fds, 0, sizeof fds);
   nrr = nmut = nacc = 0; next_created = 0;
-  seq = steps = 0; log_hash = 14695981039346656037ULL;
+  seq = steps = 0; log_hash = 14695981039346656037ULL; rnd_calls = 0; clk_calls = 0;
   max_alloc = 0; huge_alloc = 0; brk_base = brk_cur = 0; unexpected = 0;
   buf_reset(&logb);
   fds[0].kind = K_STDIN; fds[1].kind = K_STDOUT; fds[2].kind = K_STDERR;
@@ -1244,7 +1327,7 @@ static void run_plan(void)
 	  if (in_syscall) { handle_exit(pid, &ctx); in_syscall = 0; }
 	  /* else: a syscall-entry stop we did not ask for; ignore */
 	}
-      else if (sig == SIGTRAP && event == PTRACE_EVENT_EXEC) { execd = 1; }
+      else if (sig == SIGTRAP && event == PTRACE_EVENT_EXEC) { execd = 1; scrub_vdso(pid); }
       else if (sig == SIGTRAP && event) { }
       else if (sig == SIGSTOP && !execd) { /* initial stop */ }
       else
